@@ -15,6 +15,9 @@ TimeMi(t) == (t \div 32) % 64
 TimeS2(t) == t % 32                         \* seconds / 2
 RepDate(d) == DateM(d) \in 1..12 /\ DateD(d) \in 1..31
 RepTime(t) == TimeH(t) <= 23 /\ TimeMi(t) <= 59 /\ TimeS2(t) <= 29
+Leap(y) == (y % 4 = 0 /\ y % 100 # 0) \/ y % 400 = 0
+DaysIn(y, m) == IF m = 2 THEN (IF Leap(y) THEN 29 ELSE 28) ELSE IF m \in {4, 6, 9, 11} THEN 30 ELSE 31
+RealDate(y, m, d) == m \in 1..12 /\ d \in 1..DaysIn(y, m)       \* a day of the calendar (31 April is not one)
 EncDate(y, m, d) == (y - 1980) * 512 + m * 32 + d
 EncTime(h, mi, s) == h * 2048 + mi * 32 + s \div 2
 
